@@ -13,7 +13,7 @@ A == ndJsonDeserialize("a.ndjson")
 B == ndJsonDeserialize("b.ndjson")
 VARIABLE l
 
-Payload(r) == [code |-> r.code, hgen |-> r.hgen, hmetagen |-> r.hmetagen, hctype |-> r.hctype, henc |-> r.henc, view |-> r.view, body |-> r.body,
+Payload(r) == [code |-> r.code, hgen |-> r.hgen, hmetagen |-> r.hmetagen, hctype |-> r.hctype, henc |-> r.henc, hcd |-> r.hcd, view |-> r.view, body |-> r.body,
                persisted |-> r.persisted, done |-> r.done, rewritten |-> r.rewritten, objectSize |-> r.objectSize,
                pages |-> r.pages, ended |-> r.ended, errJSON |-> r.errJSON]
 Agree(x, y) == IF x.ev = "Reset" THEN y.ev = "Reset"
